@@ -158,9 +158,12 @@ type outcome struct {
 
 func elemSrc(e int, cls string) string {
 	if e == 0 {
+		if cls == "NN" {
+			return "Nil.new" // a nil that is not the cached nil object
+		}
 		return "nil"
 	}
-	if cls == "" {
+	if cls == "" || cls == "NN" {
 		cls = "E"
 	}
 	return fmt.Sprintf("%s.new(%d)", cls, e)
@@ -309,7 +312,7 @@ func (t tcase) src() string {
 	arg := ""
 	if t.Arg != "" {
 		arg = "(" + t.Arg + ")"
-		if t.Cls != "" {
+		if t.Cls != "" && t.Cls != "NN" {
 			arg = strings.Replace(arg, "E.new(", t.Cls+".new(", 1)
 		}
 	}
@@ -504,6 +507,16 @@ func gen(thorough bool, emit func(tcase)) {
 		t.Cls = "EM"
 		emit(t)
 	})
+	// the same contexts with nil elements that are equal to nil without being the cached nil object (Nil.new)
+	genCls("", maxN-1, func(t tcase) {
+		for _, e := range t.Elems {
+			if e == 0 {
+				t.Cls = "NN"
+				emit(t)
+				return
+			}
+		}
+	})
 	// the same contexts with the chain written on a new line (multi-line chain spelling)
 	genCls("", maxN-2, func(t tcase) {
 		t.ML = true
@@ -609,12 +622,22 @@ func genRest(emit func(tcase)) {
 			for _, arg := range []string{"{}", "%{}", "[]", "{z: 0}", "%{'z: 0}", "{a: 0}", "%{'a: 0}", "[0]", "{b: 7, a: 0}"} {
 				emit(tcase{Kind: "digest", Main: "@", Add: add, Form: f, Arg: arg})
 			}
+			// collected pairs whose keys are arrays, digested into maps that may already hold an equal key
+			for _, arg := range []string{"%{}", `%{[1, 2]: "old", "k": 0}`, "%{[3]: 9}", "%{[1, 2]: 7, [3]: 8}"} {
+				emit(tcase{Kind: "digest", Main: "@", Add: add, Form: f, Arg: arg, Var: "NS"})
+			}
 		}
 	}
 }
 
 func digestSrc(t tcase) string {
 	ch := t.Add + t.Main
+	if t.Var == "NS" {
+		if t.Form == "literal" {
+			return "[[1, 2], [3], [1, 2]]" + ch + "(" + t.Arg + "){|e| [e, e.len]}"
+		}
+		return "g := {|e| [e, e.len]}\n[[1, 2], [3], [1, 2]]" + ch + "(" + t.Arg + ")^g"
+	}
 	if t.Form == "literal" {
 		return `["a", "b", "a"]` + ch + "(" + t.Arg + `){|e| [e, e + "1"]}`
 	}
@@ -622,6 +645,18 @@ func digestSrc(t tcase) string {
 }
 
 func digestModel(t tcase) outcome {
+	if t.Var == "NS" {
+		switch t.Arg {
+		case "%{}":
+			return outcome{val: "%{[1, 2]: 2, [3]: 1}"}
+		case `%{[1, 2]: "old", "k": 0}`:
+			return outcome{val: `%{"k": 0, [1, 2]: "old", [3]: 1}`}
+		case "%{[3]: 9}":
+			return outcome{val: "%{[3]: 9, [1, 2]: 2}"}
+		case "%{[1, 2]: 7, [3]: 8}":
+			return outcome{val: "%{[1, 2]: 7, [3]: 8}"}
+		}
+	}
 	switch t.Arg {
 	case "{}":
 		return outcome{val: `{"a": "a1", "b": "b1"}`}
